@@ -470,3 +470,70 @@ class parse_with_formats_range_ends:
 
 
 CONTRACTS += [parse_with_formats_range_ends]
+
+
+class parse_with_formats_compound_directives:
+    """date.parse_with_formats with the compound directives that carry a year without spelling `%Y` /
+    `%y` (`%c`, `%x`, ISO `%G %V %u`): whatever the clock's year, no exception escapes (C02), and
+    for `%c` / `%x` a valid written date is returned as written (C14).  Found as a side observation
+    of a round-5 sub-agent: `parse('Mon Feb 29 10:00:00 1988', date_formats=['%c'])` raised ValueError
+    whenever the current year is not a leap year."""
+
+    name = "date.parse_with_formats/compound-directives"
+    func = "dateparser.date.parse_with_formats"
+    props = ["C02", "C14"]
+
+    FORMS = {
+        "%c": ["Mon Feb ", ("D", 2), " ", ("H", 2), ":", ("T", 2), ":", ("S", 2), " ", ("Y", 4)],
+        "%x": [("m", 2), "/", ("D", 2), "/", ("y", 2)],
+        # ('%G %V %u' is the third such form; date.fromisocalendar is not modelled, so it is
+        #  exercised on concrete inputs by the stand-in `totality` only)
+    }
+
+    @staticmethod
+    def cases(thorough=False):
+        out = []
+        for fmt in parse_with_formats_compound_directives.FORMS:
+            for pm in (("current", "first", "last") if thorough else ("current",)):
+                out.append(dict(format=fmt, PREFER_MONTH_OF_YEAR=pm))
+        return out
+
+    @staticmethod
+    def setup(inp, case):
+        from dateparser.date import parse_with_formats as f
+        from pyvc.cal import dim
+        from pyvc.harness import build, make_settings
+
+        st = make_settings(TIMEZONE="UTC", PREFER_MONTH_OF_YEAR=case["PREFER_MONTH_OF_YEAR"])
+        s, fl = build(inp, parse_with_formats_compound_directives.FORMS[case["format"]])
+        if case["format"] == "%c":
+            inp.assume(And(fl["Y"] >= 1, fl["D"] >= 1, fl["D"] <= dim(fl["Y"], 2), fl["H"] <= 23,
+                           fl["T"] <= 59, fl["S"] <= 59))
+        else:
+            Y = Ite(fl["y"] <= 68, 2000 + fl["y"], 1900 + fl["y"])
+            inp.assume(And(fl["m"] >= 1, fl["m"] <= 12, fl["D"] >= 1,
+                           fl["D"] <= dim(Y, Ite(And(fl["m"] >= 1, fl["m"] <= 12), fl["m"], 1))))
+        return f, (s, [case["format"]], st), {}, dict(f=fl)
+
+    @staticmethod
+    def post(case, g, out):
+        if not out.ok:
+            return {"no-exception-escapes": False}
+        res = {"no-exception-escapes": True}
+        dd, fl = out.value, g["f"]
+        if case["format"] in ("%c", "%x"):
+            res["recognised"] = dd.date_obj is not None
+            if dd.date_obj is not None:
+                r = dd.date_obj
+                if case["format"] == "%c":
+                    res["the-written-date-and-time"] = And(
+                        r.year == fl["Y"], r.month == 2, r.day == fl["D"], r.hour == fl["H"],
+                        r.minute == fl["T"], r.second == fl["S"])
+                else:
+                    Y = Ite(fl["y"] <= 68, 2000 + fl["y"], 1900 + fl["y"])
+                    res["the-written-date"] = And(r.year == Y, r.month == fl["m"], r.day == fl["D"])
+                res["period-day"] = dd.period == "day"
+        return res
+
+
+CONTRACTS.append(parse_with_formats_compound_directives)
